@@ -17,6 +17,7 @@ import PFV.Proofs.LexEnc
 import PFV.Proofs.GenFrame
 import PFV.Proofs.GenWF
 import PFV.Proofs.GenCount
+import PFV.Proofs.GenAscii
 import PFV.Api
 import PFV.Reach
 import PFV.Front
@@ -945,7 +946,7 @@ theorem decoded_counts {σ} (E : Entropy σ) (X : G.Ext) (c : Cfg) (hE : Lawful 
     (s s' : σ) (r : G.Result) (h : G.generate E X c s = .ok (r, s'))
     (hlen : (r.instrs.flatMap Enc.encode).length < 18446744073709551616) :
     ∃ is, Lex.lex r.bytes = .ok is ∧ c.minOps + 1 ≤ is.length ∧ is.length ≤ 3 * (max c.minOps c.maxOps) + 4 := by
-  obtain ⟨hdr, hh, hl, _⟩ := G.generate_lex E X c hE hF hM hv s s' r h hlen
+  obtain ⟨hdr, hh, hl, _, _⟩ := G.generate_lex E X c hE hF hM hv s s' r h hlen
   obtain ⟨h1, h2, body, tail, hi, hb, ht⟩ := G.generate_counts E X c hE hv s s' r h
   refine ⟨hdr ++ r.instrs, hl, ?_, ?_⟩
   · rw [hi]; simp only [List.length_append, List.length_singleton]; omega
@@ -957,6 +958,66 @@ theorem decoded_counts {σ} (E : Entropy σ) (X : G.Ext) (c : Cfg) (hE : Lawful 
     omega
 
 end C11
+
+/-! ## C05 — the 7-bit claim for protocol 0, on the bytes -/
+namespace C05
+
+/-- **C05 (7-bit).**  For protocol 0, every configuration that holds no unsafe type-confusion
+mutator (any other mutators, any rate, any opcode range), every lawful entropy source and every
+result of the exact generator: every byte of the output is below 0x80.  Hypotheses checked on the
+real data by S3: `FloatAscii` (Rust prints an `f64` with 7-bit characters) and `ModsOK`. -/
+theorem protocol0_seven_bit {σ} (E : Entropy σ) (X : G.Ext) (c : Cfg) (hE : Lawful E)
+    (hF : FloatAscii X.fmt) (hM : ModsOK X.mods) (hv : c.version = 0)
+    (hnt : ∀ m ∈ c.mutators, m ≠ .typeconfusion true)
+    (s s' : σ) (r : G.Result) (h : G.generate E X c s = .ok (r, s')) :
+    Spec.asciiOk c.version r.bytes = true := by
+  have := G.generate_ascii E X c hE hF hM hv hnt s s' r h
+  simp only [Spec.asciiOk, hv, bne_self_eq_false, Bool.false_or, List.all_eq_true, decide_eq_true_eq]
+  exact this
+
+/-- for other protocols the predicate holds trivially (it speaks about protocol 0 only) -/
+theorem asciiOk_other (p : Nat) (hp : p ≠ 0) (out : List UInt8) : Spec.asciiOk p out = true := by
+  simp [Spec.asciiOk, hp]
+
+end C05
+
+/-! ## the oracle's verdict, proved: from the returned bytes to every structural property -/
+namespace EndToEnd
+
+/-- **Capstone (C01 + C02 + C03 + C04 + C05 + C10 on the bytes).**  Safe configuration, protocol
+0–5, opcode budget below 2^32, every lawful entropy source, `FloatOK`/`ModsOK` (checked on the
+real data), body shorter than 2^64 bytes: the *byte string* the exact generator returns is decoded
+completely by the reference lexer (C04), every argument is inside its domain (C04), and the decoded
+instruction list is accepted by the reference machine with no stack (C01), memo (C02) or
+operand-kind (C03) violation, uses only opcodes of the protocol with the right header (C05) and
+respects the opt-in flags (C10).  These are exactly the predicates the executable oracle evaluates
+on the implementation's outputs; S3 ties `G.generate` to `generate_internal` byte for byte. -/
+theorem bytes_ok {σ} (E : Entropy σ) (X : G.Ext) (c : Cfg) (hs : SafeCfg c) (hv : c.version ≤ 5)
+    (hmin : c.minOps < 4294967296) (hmax : c.maxOps ≤ 4294967296) (hE : Lawful E)
+    (hF : FloatOK X.fmt) (hM : ModsOK X.mods) (s s' : σ)
+    (r : G.Result) (h : G.generate E X c s = .ok (r, s'))
+    (hlen : (r.instrs.flatMap Enc.encode).length < 18446744073709551616) :
+    ∃ is, Lex.lex r.bytes = .ok is ∧ Spec.wellFormed r.bytes = true ∧
+      Spec.stackOk is = true ∧ Spec.memoOk is = true ∧ Spec.typedOk is = true ∧
+      Spec.opsInProto c.version is = true ∧ Spec.headerOk c.version is = true ∧
+      Spec.optinOk c.allowExt c.allowBuf is = true := by
+  obtain ⟨frame, hrun, _, hfr, hfn, _⟩ := refinement E X c hs hmin hmax hE s s' r h
+  obtain ⟨hdr, _, hl, _, hh⟩ := G.generate_lex E X c hE hF hM hv s s' r h hlen
+  have hframe : frame = (if r.framed then some (r.instrs.flatMap Enc.encode).length else none) := by
+    cases frame with
+    | none =>
+      have : r.framed = false := by simpa using hfr.symm
+      simp [this]
+    | some n =>
+      have : r.framed = true := by simpa using hfr.symm
+      simp [this, hfn n rfl]
+  rw [← hframe] at hh
+  subst hh
+  exact ⟨_, hl, G.generate_wf E X c hE hF hM hv s s' r h hlen,
+    C01.accepted c hs.1 _ _ hrun, C02.memo_ok c hs.1 _ _ hrun, C03.typed_ok c hs.1 _ _ hrun,
+    C05.ops_in_proto c (by omega) _ hrun, C05.header_ok c _ hrun, C10.optin c _ _ hrun⟩
+
+end EndToEnd
 
 end PFV
 
